@@ -58,6 +58,8 @@ def gen(seed, tier):
     running = [d for d in need if certainly_runs(d)]
     if kind == "plugin_raise" and running:
         d = r.choice(running)
+        if target in running and r.random() < 0.3:
+            d = target      # the failing stage is the one whose mailbox the caller reads (it is killed differently)
         n = nb[d]
         if n["kind"] == "source":
             fault = {"type": "plugin_raise", "node": d, "chunk": r.randrange(len(n["bounds"]) - 1), "kind": "raise"}
